@@ -33,6 +33,8 @@ pub struct Cfg {
     pub go_stmt: bool,
     pub max_depth: usize,
     pub effects: bool,
+    /// let `array_set` results flow un-annotated (wildcard array length, known finding)
+    pub wildcard_arrays: bool,
 }
 
 struct StructD {
@@ -489,7 +491,14 @@ impl<'a> Gen<'a> {
                     let v = self.expr(e, scope, d, pre);
                     let i = self.rng.below(*n);
                     self.feat("array_set");
-                    format!("array_set([{}], {}, {})", items.join(", "), i, v)
+                    if self.cfg.wildcard_arrays {
+                        // the builtin's result type carries a wildcard length (known finding): own stream
+                        format!("array_set([{}], {}, {})", items.join(", "), i, v)
+                    } else {
+                        let name = self.fresh("as");
+                        write!(pre, "let {}: {} = array_set([{}], {}, {}); ", name, self.ty_text(t), items.join(", "), i, v).unwrap();
+                        name
+                    }
                 } else {
                     format!("[{}]", items.join(", "))
                 }
